@@ -17,21 +17,24 @@ A = '1.2.840.10008.1.1'
 IMPL = '1.2.840.10008.1.2'
 
 
-def grid():
+def grid(thorough=False):
     out = {0}
-    for v in (7, 8, 127, 128, 1024, 16384, 65536, 2 ** 31, 2 ** 32 - 1):
-        for d in (-1, 0, 1):
+    vals = (7, 8, 127, 128, 1024, 16384, 65536, 2 ** 31, 2 ** 32 - 1)
+    if thorough:
+        vals = tuple(sorted(set(vals + tuple(2 ** k for k in range(3, 33)) + (10, 100, 1000, 4096 + 6, 16384 + 6, 2 ** 32 - 1))))
+    for v in vals:
+        for d in ((-1, 0, 1) if not thorough else (-2, -1, 0, 1, 2)):
             if 7 <= v + d <= 2 ** 32 - 1:
                 out.add(v + d)
     return sorted(out)
 
 
 def domain(tier):
-    return {'grid': grid()}
+    return {'grid': grid(tier == 'thorough')}
 
 
 def cases(tier, seed):
-    g = grid()
+    g = grid(tier == 'thorough')
     for role in ('acceptor', 'requestor'):
         for L in g:
             for P in g:
